@@ -172,11 +172,11 @@ func keys(m map[int]bool) []int {
 
 func vfC07(c *hx.Ctx) {
 	c.Rule("real fecEncoder -> real fecDecoder; for each (d,p), group position (incl. 2^31 and the wrap value, tracked and fresh decoder) and payload-size vector: EVERY arrival sequence of length <= n+1 over the focus group's " +
-		"n=d+p packets plus two packets of the next group (all subsets, orders, duplicates, late arrivals, interleaving); oracle at every step: exactly the not-yet-received data packets come out when the d-th distinct packet arrives, " +
+		"n=d+p packets plus two packets of the next group (all subsets, orders, duplicates, late arrivals, interleaving; for groups of more than 5 packets: sequences up to a shorter length plus EVERY arriving subset in four orders); oracle at every step: exactly the not-yet-received data packets come out when the d-th distinct packet arrives, " +
 		"byte-identical with exact length and zero padding, nothing else ever. Non-trivial = sequences in which a recovery is due.")
-	ratios := [][2]int{{1, 1}, {1, 2}, {2, 1}, {2, 2}, {3, 1}, {3, 2}, {3, 3}, {4, 2}}
+	ratios := [][2]int{{1, 1}, {1, 2}, {2, 1}, {2, 2}, {3, 1}, {3, 2}, {3, 3}, {4, 2}, {5, 3}, {10, 3}}
 	if !c.Quick() {
-		ratios = append(ratios, [2]int{5, 3}, [2]int{10, 3})
+		ratios = append(ratios, [2]int{6, 2}, [2]int{4, 4})
 	}
 	idx := 0
 	for _, dp := range ratios {
@@ -211,6 +211,9 @@ func vfC07(c *hx.Ctx) {
 				maxLen := n + 1
 				if n > 5 {
 					maxLen = hx.Pick(c, 5, 6)
+				}
+				if n > 8 {
+					maxLen = hx.Pick(c, 3, 4) // large groups: short sequences, plus every subset in four arrival orders below
 				}
 				var pre []vfFecPkt
 				stream := vfFecStream(d, p, bs.b, 2, sizes)
@@ -298,6 +301,80 @@ func vfC07(c *hx.Ctx) {
 					}
 				}
 				rec()
+				// large groups: every subset of the group's packets arrives (the rest is lost), in ascending, descending and
+				// parity-first order, and ascending with the next group's packets in between
+				if n > 5 && !stop {
+					for mask := 1; mask < 1<<n && !stop; mask++ {
+						if mask&0xff == 0 && time.Now().After(c.Deadline) {
+							u.Exhaustive, u.CapHit = false, "internal deadline"
+							break
+						}
+						var asc []int
+						for i := 0; i < n; i++ {
+							if mask>>i&1 == 1 {
+								asc = append(asc, i)
+							}
+						}
+						for order := 0; order < 4; order++ {
+							seq = seq[:0]
+							switch order {
+							case 0:
+								seq = append(seq, asc...)
+							case 1:
+								for i := len(asc) - 1; i >= 0; i-- {
+									seq = append(seq, asc[i])
+								}
+							case 2:
+								for _, x := range asc {
+									if x >= d {
+										seq = append(seq, x)
+									}
+								}
+								for _, x := range asc {
+									if x < d {
+										seq = append(seq, x)
+									}
+								}
+							case 3:
+								for i, x := range asc {
+									seq = append(seq, x)
+									if i == len(asc)/2 {
+										seq = append(seq, n, n+1)
+									}
+								}
+							}
+							u.Executions++
+							if len(asc) >= d {
+								u.NonTrivial++
+							}
+							sig, msg := func() (sig, msg string) {
+								defer func() {
+									if r := recover(); r != nil {
+										sig, msg = "C07:decoder-panic:"+vfPanicSiteOf(), fmt.Sprintf("the decoder panicked: %v", r)
+									}
+								}()
+								return vfC07Seq(cf, pre, alphabet, stream, seq)
+							}()
+							if sig != "" {
+								found := false
+								for _, v := range u.Violations {
+									if v.Signature == sig {
+										v.Count++
+										found = true
+									}
+								}
+								if !found {
+									u.Violations = append(u.Violations, c.NewViolation(name, u.Params, sig, msg, fmt.Sprintf("arriving subset %v, order %d", asc, order)))
+								}
+								if len(u.Violations) >= 3 {
+									stop = true
+								}
+							}
+						}
+					}
+					seq = seq[:0]
+					u.Params["subsets"] = fmt.Sprintf("all 2^%d-1 arriving subsets x 4 orders", n)
+				}
 				if len(u.Samples) == 0 {
 					u.Samples = append(u.Samples, map[string]any{"arrival_sequence": []int{0, 1}})
 				}
